@@ -72,6 +72,7 @@ struct Stats {
     cb_faults_fired: [u64; 3],
     sticky_plans: u64,
     calls_after_first_error: u64,
+    reentries: u64,
     err_returned_under_fault: u64,
     ok_returned_under_fault: u64,
     prefix_mismatch_under_fault: u64,
@@ -106,6 +107,7 @@ impl Stats {
         }
         self.sticky_plans += o.sticky_plans;
         self.calls_after_first_error += o.calls_after_first_error;
+        self.reentries += o.reentries;
         self.err_returned_under_fault += o.err_returned_under_fault;
         self.ok_returned_under_fault += o.ok_returned_under_fault;
         self.prefix_mismatch_under_fault += o.prefix_mismatch_under_fault;
@@ -294,6 +296,17 @@ fn run_case(st: &mut Stats, c: &Case, order: u64, fm: FaultMode, rng: &mut Split
             }
             FaultMode::None => {}
         }
+        // re-entrant caller code: the sink (every fault-capable API) or a callback (custom options) formats another
+        // Span/Position at a seeded call; nothing fails, the rendering must be what it is without re-entry
+        if n > 0 && !huge {
+            plans.push(Plan::reenter(0, 1 + rng.below(n), rng.chance(1, 2), n));
+            if *api == Api::Custom || *api == Api::Decor {
+                let ch = rng.below(3);
+                if base.cb_calls[ch] > 0 {
+                    plans.push(Plan::reenter(1 + ch as u8, 1 + rng.below(base.cb_calls[ch]), rng.chance(1, 2), n));
+                }
+            }
+        }
         for plan in plans {
             let ex = execute(c, *api, &plan);
             st.executions += 1;
@@ -306,6 +319,11 @@ fn run_case(st: &mut Stats, c: &Case, order: u64, fm: FaultMode, rng: &mut Split
                 st.cb_faults_fired[ch] += ex.cb_faults_fired[ch] as u64;
             }
             st.calls_after_first_error += ex.calls_after_first_error as u64;
+            st.reentries += ex.reentries as u64;
+            if plan.channel >= 10 && matches!(ex.outcome, Outcome::Ok) && ex.out != base.out {
+                st.violations.push(Violation { class: "reentry-changes-output".to_string(), detail: "the rendering differs when the sink or a callback formats another span meanwhile".to_string(),
+                    case: c.clone(), api: *api, plan: plan.clone(), order });
+            }
             match ex.outcome {
                 Outcome::Ok => st.ok_returned_under_fault += 1,
                 Outcome::Err => st.err_returned_under_fault += 1,
@@ -813,7 +831,7 @@ fn cmd_run(args: &BTreeMap<String, String>) -> i32 {
         "sampled_short_cases": b.sampled_short, "sampled_long_texts": b.sampled_long, "sampled_huge_texts": b.sampled_huge, "sampled_wide_line_texts": b.sampled_wide,
         "faults_fired": {"sink_write_error": st.sink_faults_fired, "span_formatter_error": st.cb_faults_fired[0],
             "marker_formatter_error": st.cb_faults_fired[1], "number_formatter_error": st.cb_faults_fired[2],
-            "sticky_plans": st.sticky_plans},
+            "sticky_plans": st.sticky_plans, "reentries_from_sink_or_callback": st.reentries},
         "under_fault": {"returned_err": st.err_returned_under_fault, "returned_ok_error_swallowed": st.ok_returned_under_fault,
             "calls_observed_after_first_error": st.calls_after_first_error, "prefix_mismatch_selfcheck": st.prefix_mismatch_under_fault},
         "api_text_mismatch_cases": st.api_text_mismatch,
